@@ -174,6 +174,7 @@ U_C20(zz) == {EqDecl([C0 |-> Class(DefaultOpts, <<U1("a"), IntF("_reserved", 2, 
                                               MvField(EmF("tail"), [kind |-> "aligned", arg |-> SzConst(4), ref |-> "innermost-pkt"])>>), C1 |-> Sub1])}
 
 \* -------------------------------------------------------------------- C19
+SharedAlts2 == <<[key |-> 0, alt |-> IntF("", 2, FALSE, "default")], [key |-> 1, alt |-> DataF("", SzConst(1))]>>
 U_C19(zz) ==
     {V1(<<WithDflt(U1("a"), 5), IntF("b", 2, TRUE, "little"), WithDflt(DataF("d", SzConst(2)), <<65, 66>>), DataF("e", SzConst(3)),
           DataF("f", SzField("a"))>>, "subsets", FALSE),
@@ -211,6 +212,17 @@ U_C19(zz) ==
      V1(<<U1("a"), WithDesc(IntF("s", 2, FALSE, "default"), [kind |-> "auto", e |-> EBin("add", EF("a"), EC(1))]),
           WithDesc(U1("k"), [kind |-> "autolen", of |-> "r"]), [RepCountF("r", U1("e"), SzField("k"), NoCond, 0) EXCEPT !.dflt = <<IntV(1), IntV(2)>>]>>,
         "subsets", FALSE),
+     \* the referenced class has fields of the SAME NAMES as the referring one, with other declared defaults
+     VDecl([C0 |-> Class(DefaultOpts, <<WithDflt(U1("x"), 3), WithDflt(IntF("y", 2, TRUE, "little"), 0 - 2), RefF("s", "C1"),
+                                        WithDflt(DataF("d", SzConst(2)), <<65, 66>>)>>), C1 |-> SubD,
+            \* ... and so has a class of the same module that is defined AFTER it and that nothing refers to
+            C2 |-> Class(DefaultOpts, <<WithDflt(U1("x"), 9), WithDflt(IntF("y", 2, TRUE, "little"), 5), WithDflt(DataF("d", SzConst(2)), <<67, 68>>)>>)],
+           "subsets", 1, FALSE),
+     \* two references that select their format from ONE shared option table (a source and a destination address): each
+     \* keeps its own default and its own keyword
+     \* (alternatives of different kinds, so that a value says which one it is an encoding of)
+     VDecl([C0 |-> Class(DefaultOpts, <<U1("t"), RefSelSharedF("v", EF("t"), SharedAlts2, "T1", IntV(5)),
+                                        RefSelSharedF("w", EF("t"), SharedAlts2, "T1", IntV(6)), U1("z")>>)], "subsets", 0, FALSE),
      \* a descriptor whose function SERIALISES another packet (a length / checksum over `pkt.b.pack()`), one level down: its
      \* before-pack hook runs while the enclosing packet has already written bytes, so pack() is re-entered
      VDecl([C0 |-> Class(DefaultOpts, <<WithDflt(U1("t"), 1), RefF("s", "C1"), U1("z")>>),
